@@ -473,7 +473,7 @@ def run_abtest(cfg: dict) -> dict:
 def execute_latest(cfg: dict, schedule: typing.Optional[list] = None) -> tuple[dict, list[dict]]:
     root = tempfile.mkdtemp(prefix='c17-', dir=serving.scratch_parent())
     try:
-        result = runmod.fork_run(simulate_latest, cfg, root, schedule, real_timeout=240)
+        result = runmod.fork_run(simulate_latest, cfg, root, schedule, real_timeout=240, seed=cfg['seed'])
     finally:
         shutil.rmtree(root, ignore_errors=True)
     return result, judge_latest(cfg, result)
@@ -485,7 +485,7 @@ def run_seed(job) -> dict:
     if mode == 'abtest':
         cfg = gen_ab_cfg(seed)
         try:
-            res = runmod.fork_run(run_abtest, cfg, real_timeout=120)
+            res = runmod.fork_run(run_abtest, cfg, real_timeout=120, seed=cfg['seed'])
         except runmod.RunFailed as err:
             out['harness'] = str(err)[:1500]
             return out
@@ -516,7 +516,7 @@ def run_seed(job) -> dict:
 def reproduces(cfg: dict, schedule, klass: str) -> typing.Optional[dict]:
     try:
         if cfg['mode'] == 'abtest':
-            res = runmod.fork_run(run_abtest, cfg, real_timeout=120)
+            res = runmod.fork_run(run_abtest, cfg, real_timeout=120, seed=cfg['seed'])
             violations = res['violations']
         else:
             _, violations = execute_latest(cfg, schedule)
